@@ -90,8 +90,11 @@ class Check:
             path = os.path.join(EVID, 'violations', '%s-%d.json' % (self.pid, i))
             with open(path, 'w') as fh:
                 json.dump({'property': self.pid, 'tier': self.tier, **v}, fh, indent=1, default=str)
-            lines.append('VIOLATION property=%s replay=%s' % (self.pid, path))
-            lines.append('  rule=%s instance=%s at %s: %s' % (v['rule'], v['instance'], v['where'], v['what']))
+            if i < 8:
+                lines.append('VIOLATION property=%s replay=%s' % (self.pid, path))
+                lines.append('  rule=%s instance=%s at %s: %s' % (v['rule'], v['instance'], v['where'], v['what'][:400]))
+            elif i == 8:
+                lines.append('  (+%d more violations; reports under %s)' % (len(new) - 8, os.path.join(EVID, 'violations')))
         n_obl = len(self.obligations)
         n_ok = sum(1 for o in self.obligations if o[2])
         cov = {
